@@ -1,21 +1,23 @@
 #!/usr/bin/env python3
 """Dev-time: summarise the mutation sweep (mutsweep/stage1.tsv, stage2.tsv, stage3.tsv, triage/*.json, final.json)
 into mutsweep/SUMMARY.md and the block between <!-- MUTSWEEP-BEGIN/END --> in DESIGN.md."""
-import json, glob, collections, os, re
+import json, glob, collections, os, re, sys
 os.chdir(os.path.dirname(os.path.abspath(__file__)))
-s1 = [l.rstrip('\n').split('\t') for l in open('mutsweep/stage1.tsv')]
+D = sys.argv[1] if len(sys.argv) > 1 else "mutsweep"
+TAG = sys.argv[2] if len(sys.argv) > 2 else "MUTSWEEP"
+s1 = [l.rstrip('\n').split('\t') for l in open(D + '/stage1.tsv')]
 s2 = {}
-for l in open('mutsweep/stage2.tsv'):
+for l in open(D + '/stage2.tsv'):
     r = l.rstrip('\n').split('\t'); s2[r[0]] = r
 s3 = {}
-if os.path.exists('mutsweep/stage3.tsv'):
-    for l in open('mutsweep/stage3.tsv'):
+if os.path.exists(D + '/stage3.tsv'):
+    for l in open(D + '/stage3.tsv'):
         r = l.rstrip('\n').split('\t'); s3[r[0]] = r[1]
 tri = {}
-for f in sorted(glob.glob('mutsweep/triage/*.json')):
+for f in sorted(glob.glob(D + '/triage/*.json')):
     for e in json.load(open(f)):
         tri[e['id']] = e
-final = json.load(open('mutsweep/final.json')) if os.path.exists('mutsweep/final.json') else {}
+final = json.load(open(D + '/final.json')) if os.path.exists(D + '/final.json') else {}
 files = sorted({r[2].split(':')[0] for r in s1})
 T = collections.defaultdict(collections.Counter)
 for r in s1:
@@ -52,10 +54,10 @@ for mid in sorted(final):
     e = final[mid]; r = s2.get(mid, ['', '', '?', '?', '?'])
     detail.append('| %s | %s `%s`: %s | %s | %s |' % (mid, r[2], r[3], r[4].replace('|', '\\|'), e['class'], e['note']))
 dt = '| id | change | outcome | note |\n|---|---|---|---|\n' + '\n'.join(detail)
-open('mutsweep/SUMMARY.md', 'w').write('# Mutation sweep summary (generated)\n\n' + table + '\n\n## Changes that triage found observable\n\n' + dt + '\n')
+open(D + '/SUMMARY.md', 'w').write('# Mutation sweep summary (generated)\n\n' + table + '\n\n## Changes that triage found observable\n\n' + dt + '\n')
 d = open('DESIGN.md').read()
-if '<!-- MUTSWEEP-BEGIN -->' in d:
-    a = d.index('<!-- MUTSWEEP-BEGIN -->') + len('<!-- MUTSWEEP-BEGIN -->'); b = d.index('<!-- MUTSWEEP-END -->')
+if '<!-- ' + TAG + '-BEGIN -->' in d:
+    a = d.index('<!-- ' + TAG + '-BEGIN -->') + len('<!-- ' + TAG + '-BEGIN -->'); b = d.index('<!-- ' + TAG + '-END -->')
     d = d[:a] + '\n' + table + '\n\n' + dt + '\n' + d[b:]
     open('DESIGN.md', 'w').write(d)
 print(dict(tot))
